@@ -2982,6 +2982,7 @@ static void AssembleFile_InitPass(void) {
     }
 
     SetFlag(&DoPadding, DoPaddingName, True);
+    SetFlag(&DottedStructs, DottedStructsName, False);
 
     if (*DefCPU == '\0') {
         SetCPUByType(0, NULL);
